@@ -8,5 +8,6 @@ import (
 
 // TestWorker is the entry point verifctl spawns (one OS process per worker).
 func TestWorker(t *testing.T) {
+	sim.Quiet()
 	sim.RunWorker(t, []sim.Check{C01{}, C09{}, C10{}, C08{}, C20{}, NewC16c()})
 }
